@@ -320,6 +320,16 @@ impl ParseState<'_> {
         let (punctuation, right_border) = punctuation.right_unwrap_or(right_border);
 
         // 前后缀切割完毕，最后解析出词项 //
+        #[cfg(feature = "verif_hooks")]
+        crate::verif_hooks::emit(crate::verif_hooks::Event::LexItems {
+            len: env.len(),
+            begin: begin_index,
+            right: right_border,
+            mask: (budget.is_some() as u8)
+                | (punctuation.is_some() as u8) << 2
+                | (stamp.is_some() as u8) << 3
+                | (truth.is_some() as u8) << 4,
+        });
         // 获得「词项」的「字符数组切片」
         let env_term = &env[begin_index..right_border];
 
@@ -682,6 +692,8 @@ impl ParseState<'_> {
     /// * 🚩因为「递归解析」需要传递信息，故需要额外传递索引
     /// * 📌不传递额外信息、直接传递字符串的才能叫「parse」
     fn segment_term(&self, env: ParseEnv) -> ParseResult<(Term, ParseIndex)> {
+        #[cfg(feature = "verif_hooks")]
+        crate::verif_hooks::emit(crate::verif_hooks::Event::LexSegmentTerm { len: env.len() });
         // 先解析「集合词项」
         if let Ok(result) = self.segment_term_set(env) {
             return Ok(result);
